@@ -198,6 +198,31 @@ def check(res, tier, replay=None):
             n = 150 if tier == "quick" else 4000
             scripts = [gen_conformant(r, res) for _ in range(n)] + top_sweep()
         found = c01.run_engine(res, prep, scripts, oracle_c02, "c02", extra=make_extra(prep.bdir, res))
+        if not replay:
+            # the same conformant programs when the streams are first written to OVNI_TMPDIR and relocated by
+            # ovni_thread_free (copy in 1024-byte blocks): plus programs whose stream.obs is an exact multiple
+            # of 1024 bytes, the boundary of that copy loop (sizes taken from the model's own byte count)
+            sub = [sc for sc in scripts if sc.endswith("free ; fini") or sc.endswith("free")][: (30 if tier == "quick" else 400)]
+            drv = engine.exe("drv_rt")
+            head = ("init ; cpu 0 0 ; cpu 1 1 ; require nosv 2.4.0 ; ev 4f4878 now " +
+                    struct.pack("<iiQ", 0, -1, 0).hex() + " ; ")
+            tail = " ; ev 4f4865 now ; flush ; free ; fini"
+            probe = [head + "jumbo 565963 now %d 7 %s" % (100, (struct.pack("<I", 10) + b"t10\0").hex()) + tail]
+            _, mo, _ = engine.run_lines(drv, probe)
+            try:
+                _oc, mbytes, _ = rt_lib.expand_model(mo[0])
+                base = len(mbytes)
+            except Exception:      # noqa: BLE001
+                base = None
+            if base:
+                for k in (1, 2, 3, 8):
+                    L1 = 100 + (-(base) % 1024) + 1024 * (k - 1)
+                    for d in (-1, 0, 1):
+                        sub.append(head + "jumbo 565963 now %d 7 %s" % (L1 + d, (struct.pack("<I", 10) + b"t10\0").hex()) + tail)
+                        res.dist("pass:tmpdir-aligned" if d == 0 else "pass:tmpdir-near-aligned")
+            res.dist("pass:tmpdir", len(sub))
+            found = c01.run_engine(res, prep, sub, oracle_c02, "c02-tmpdir", env_extra={"RT_TMPDIR": "1"},
+                                   extra=make_extra(prep.bdir, res)) or found
         for b in res.cov.get("correspondence_breaks", [])[:3]:
             proved = False
             res.failed_obligations = getattr(res, "failed_obligations", []) + ["correspondence rt: " + b["what"] + " on: " + b["script"]]
